@@ -378,6 +378,40 @@ func c03Apply(p *core.Program, r *core.Report, fn *ssa.Function) {
 				okGuard = true
 			}
 		}
+		// (c) a stored object is not modified between the comparison and the store: every write through the stored
+		// pointer happens before the guard's comparison is evaluated
+		if _, isPtr := stored.Type().Underlying().(*types.Pointer); isPtr {
+			var cmpCalls []ssa.Instruction
+			for _, cond := range conds {
+				for v := range core.BackSlice(cond, func(c *ssa.Call) bool { return true }) {
+					if c, ok := v.(*ssa.Call); ok {
+						for _, a := range c.Call.Args {
+							if canon(a) == cst {
+								cmpCalls = append(cmpCalls, c)
+							}
+						}
+					}
+				}
+			}
+			late := ""
+			core.EachInstr(fn, false, func(_ *ssa.Function, in ssa.Instruction) {
+				st, ok := in.(*ssa.Store)
+				if !ok {
+					return
+				}
+				fa, ok := st.Addr.(*ssa.FieldAddr)
+				if !ok || canon(fa.X) != cst {
+					return
+				}
+				for _, cc := range cmpCalls {
+					if instrReaches(cc, st) {
+						late = "field " + core.FieldAddrVar(fa).Name() + " of the new value is written at " + p.Pos(st.Pos()) + " after the value was compared with the old one"
+					}
+				}
+			})
+			r.Check(late == "", "R4", key+"/value-frozen-after-compare", p.Pos(cs.Pos()), "the stored object is complete before it is compared",
+				late+": the guard judges a different value from the one stored and announced")
+		}
 		r.Check(okGuard, "R4", key+"/guard-value", p.Pos(cs.Pos()), "change guard compares "+getter+" with the stored value",
 			fmt.Sprintf("the guard before %s does not compare %s() with the value that is stored (%s): an unchanged contact is re-written and re-announced, or a change is missed %v", mn, getter, cst, seen))
 	}
@@ -906,4 +940,33 @@ func lenFact(s *core.PathState, cond ssa.Value) core.AB {
 		return core.True
 	}
 	return core.Unk
+}
+
+
+// instrReaches: there is a control-flow path on which a executes and b executes later.
+func instrReaches(a, b ssa.Instruction) bool {
+	ba, bb := a.Block(), b.Block()
+	if ba == bb {
+		for _, in := range ba.Instrs {
+			if in == a {
+				break
+			}
+			if in == b {
+				// b before a in the same block: only through a cycle
+				for _, s := range ba.Succs {
+					if core.Reachable(s, nil)[ba] {
+						return true
+					}
+				}
+				return false
+			}
+		}
+		return true
+	}
+	for _, s := range ba.Succs {
+		if core.Reachable(s, nil)[bb] {
+			return true
+		}
+	}
+	return false
 }
